@@ -252,6 +252,63 @@ def moving_bar_roundtrip(part, ta, tb):
                                {"used": (base_used, quote_used, liq), "got_back": (base_get, quote_get)})
 
 
+def wallet_roundtrips(part, ta, tb):
+    """Round trips judged at the WALLET (what the user is left with), at one price:
+    (a) staged: deposit, withdraw without collecting (the range stays in the book, emptied), deposit again into the same ticks, withdraw everything and collect -
+        the wallet is back where it started, to the last digit (withdrawing at the deposit price returns exactly what was deposited, also in two instalments);
+    (b) the wallet holds a hair more than the offer (0.005 %, outside the wallet's 0.001 % sweep band): what leaves the wallet is the used amount, not more."""
+    import pandas as pd
+    from demeter import Broker, MarketInfo, TokenInfo
+    from demeter.uniswap import UniLpMarket, UniV3Pool, UniswapMarketStatus
+
+    if not (-800000 < ta < tb < 800000):
+        return
+    for q0 in (True, False):
+        for mode in ("staged", "hair-above-offer"):
+            part.count("evaluations")
+            part.count("wallet_roundtrips")
+            t0, t1 = TokenInfo("T0", 6), TokenInfo("T1", 18)
+            pool = UniV3Pool(t0, t1, 0.005, t0 if q0 else t1)
+            broker = Broker()
+            market = UniLpMarket(MarketInfo("m"), pool)
+            broker.add_market(market)
+            tick_p = (ta + tb) // 2
+            price = market.tick_to_price(tick_p)
+            market.set_market_status(UniswapMarketStatus(None, pd.Series(
+                data=[0, 0, 10**20, tick_p, price], index=["inAmount0", "inAmount1", "currentLiquidity", "closeTick", "price"])), None)
+            case = {"lower": ta, "upper": tb, "kind": f"wallet-{mode}", "q0": q0, "price_tick": tick_p}
+            base, quote = market.base_token, market.quote_token
+            try:
+                if mode == "staged":
+                    w_b, w_q = Decimal("1000.123456"), Decimal("1000.654321")
+                    broker.set_balance(base, w_b)
+                    broker.set_balance(quote, w_q)
+                    pos, b1, q1, liq1 = market.add_liquidity_by_tick(ta, tb, Decimal(3), Decimal(3), trim_tick=False)
+                    market.remove_liquidity(pos, collect=False)
+                    pos2, b2, q2, liq2 = market.add_liquidity_by_tick(ta, tb, Decimal(2), Decimal(5), trim_tick=False)
+                    market.remove_liquidity(pos2, collect=True)
+                    got = (broker.get_token_balance(base), broker.get_token_balance(quote))
+                    # the wallet's sums are rounded to the library's 35-digit context: "back where it started" is judged to 1e-30 relative
+                    near = all(abs(g - w) <= w * Decimal("1e-30") for g, w in zip(got, (w_b, w_q)))
+                    if liq1 > 0 and liq2 > 0 and (not near or pos2 in market.positions):
+                        part.violation("C07|market|roundtrip|staged", "two deposits into one range, the first withdrawn but not collected in between: withdrawing and collecting "
+                                       "everything at the deposit price does not return what was deposited", case,
+                                       {"wallet_start": (w_b, w_q), "wallet_end": got, "deposits": [(b1, q1), (b2, q2)]})
+                else:
+                    offer = Decimal("3.000001")
+                    hair = offer * (1 + Decimal("0.00005"))
+                    broker.set_balance(base, hair)
+                    broker.set_balance(quote, hair)
+                    pos, b1, q1, liq1 = market.add_liquidity_by_tick(ta, tb, offer, offer, trim_tick=False)
+                    left = (broker.get_token_balance(base), broker.get_token_balance(quote))
+                    exact = all(abs(l - (hair - u)) <= hair * Decimal("1e-30") for l, u in zip(left, (b1, q1)))
+                    if liq1 > 0 and (b1 > offer or q1 > offer or not exact):
+                        part.violation("C07|market|overspend|wallet", "a deposit took more out of the wallet than the amounts it reports as used (and than was offered)", case,
+                                       {"offered": offer, "wallet_before": hair, "used": (b1, q1), "wallet_after": left})
+            except Exception as e:  # noqa: BLE001
+                part.violation(f"C07|market|exception|{type(e).__name__}", f"market round trip raised {type(e).__name__}: {e}", case)
+
+
 def reprice_same_bar(part, ta, tb):
     """The status of ONE timestamp is set twice with different pool prices (a what-if inside a bar, a corrected row): deposits and withdrawals after the
     second status use the second price - differential against a fresh market that only ever saw the second status."""
@@ -418,6 +475,7 @@ def work(args):
         moving_bar_roundtrip(part, ta, tb)
         argument_forms(part, ta, tb)
         reprice_same_bar(part, ta, tb)
+        wallet_roundtrips(part, ta, tb)
     return part.result()
 
 
